@@ -15,9 +15,13 @@ import (
 	"runtime"
 	"sync"
 	"sync/atomic"
+	"time"
 
 	"github.com/brewlin/net-protocol/pkg/sleep"
 )
+
+// generous: a round normally takes well under a second
+const stressWatchdog = 60 * time.Second
 
 type stressOut struct {
 	Goroutines int     `json:"goroutines"`
@@ -30,10 +34,12 @@ type stressOut struct {
 	Mismatch   [][]int `json:"mismatch"` // [waker, produced, consumed]
 	Invented   []int   `json:"invented"` // ids returned although nothing was ever published for them
 	Stuck      bool    `json:"stuck"`
+	StuckHow   string  `json:"stuck_how,omitempty"`
 	Reattach   bool    `json:"reattach_ok"`
 }
 
 func stress(ng, nw, iters, seed int) stressOut {
+	resetSentinel()
 	out := stressOut{Goroutines: ng, Wakers: nw, Iters: iters, Mismatch: [][]int{}, Invented: []int{}}
 	var rnd, yields uint64 = uint64(seed)*2654435761 + 1, 0
 	sleep.VerifSetHook(func(int) {
@@ -105,9 +111,23 @@ func stress(ng, nw, iters, seed int) stressOut {
 		s.Done()
 		atomic.StoreInt32(&done, 1)
 	}()
-	wg.Wait()
+	// watchdog: Assert and Clear never block, so the producers finish (normally well within a second)
+	pdone := make(chan struct{})
+	go func() { wg.Wait(); close(pdone) }()
+	select {
+	case <-pdone:
+	case <-time.After(stressWatchdog):
+		out.Stuck, out.StuckHow = true, "producer goroutines (Assert/Clear) did not return"
+		return out
+	}
 	wk[0].Assert()
+	t0 := time.Now()
 	for atomic.LoadInt32(&done) == 0 {
+		if time.Since(t0) > stressWatchdog {
+			// every Assert has returned, quit is asserted: the fetch loop is obliged to end
+			out.Stuck, out.StuckHow = true, "sleeper goroutine keeps running (Fetch/Done does not return) although all Asserts returned"
+			break
+		}
 		if sleep.VerifWaitingG(s) == sleep.VerifGParked && wk[0].IsAsserted() {
 			// nobody is in flight any more: nothing will ever wake it
 			stuck := true
@@ -116,7 +136,7 @@ func stress(ng, nw, iters, seed int) stressOut {
 				stuck = atomic.LoadInt32(&done) == 0 && sleep.VerifWaitingG(s) == sleep.VerifGParked && wk[0].IsAsserted()
 			}
 			if stuck {
-				out.Stuck = true
+				out.Stuck, out.StuckHow = true, "sleeper parked although the quit waker is asserted and nobody is in flight"
 				break
 			}
 		}
